@@ -68,7 +68,7 @@ func verif_harness_C18_first_of_each_family() {
 // Goroutines of the happy-eyeballs race run to completion at spawn (the dial
 // model does not block; the assertions do not depend on the schedule).
 //
-//verif:harness param.n=1..3 thorough.param.n=1..4 unwind=32 replay=none
+//verif:harness param.n=1..3 thorough.param.n=1..3 unwind=32 replay=none
 func verif_harness_C18_dns_caching_dial() {
 	n := verif_param("n")
 	dials := 2
